@@ -99,7 +99,7 @@ class World:
     """all sidecar declarations of one property: types, classes, contracts, spec defs"""
     def __init__(self, pid):
         self.pid = pid
-        self.types = {'int': TInt, 'bool': TBool, 'str': TStr, 'float': TFloat, 'none': TNone, 'None': TNone}
+        self.types = {'int': TInt, 'bool': TBool, 'str': TStr, 'float': TFloat, 'none': TNone, 'None': TNone, 'bytes': TBytes}
         self.classes = {}      # ref class name -> {field: type string}
         self.contracts = {}    # key -> Contract
         self.defs = {}         # spec macro name -> (params, expr string)
@@ -110,6 +110,7 @@ class World:
         self.class_src = {}    # ref class name -> (rel, classname)
         self.trusted = []      # free-text trusted-base entries
         self.ufunc_facts = {}
+        self.hierarchies = {}       # ref class name -> rel of the module whose class hierarchy decides isinstance on it
         self.callable_recs = {}     # record type name -> python function(ex, recv, args, kwargs, node) modelling __call__
         self.ext_funcs = {}         # source text of a callee expression -> assumed contract dict (code outside reach)
         self.opaque_exprs = {}      # source text of a constant expression -> type (opaque fixed value)
@@ -169,6 +170,7 @@ class World:
         if head == 'Seq': return TSeq(self.ty(inner[0]))
         if head == 'Set': return TSet(self.ty(inner[0]))
         if head == 'Map': return TMap(self.ty(inner[0]), self.ty(inner[1]))
+        if head == 'OMap': return TOMap(self.ty(inner[0]), self.ty(inner[1]))
         if head == 'Tuple': return TTuple([self.ty(x) for x in inner])
         raise KeyError('unknown type %r' % s)
 
@@ -436,6 +438,7 @@ class Exec:
         if isinstance(v, int): return vint(v)
         if isinstance(v, str): return vstr(v)
         if isinstance(v, float): return V(TFloat, z3.RealVal(repr(v)))
+        if isinstance(v, bytes): return V(TBytes, z3.StringVal(v.decode('latin-1')))
         if v is Ellipsis: return NONE
         raise Unsupported('constant %r' % (v,))
 
@@ -455,7 +458,10 @@ class Exec:
                     seq = sv if seq is None else self.seq_concat(seq, sv)
                 else: items.append(self.val(self.eval(e)))
             return flush(seq, items)
-        vals = [self.val(self.eval(e)) for e in n.elts]
+        raw = [self.eval(e) for e in n.elts]
+        if raw and all(isinstance(x, (ClassRef, ExcClass, BuiltinRef, TypeObj)) for x in raw):
+            return raw      # a tuple of classes (isinstance / except clauses)
+        vals = [self.val(x) for x in raw]
         return V(TTuple([v.ty for v in vals]), vals)
 
     def e_List(self, n):
@@ -704,6 +710,7 @@ class Exec:
         ty = c.ty
         if isinstance(ty, TSet): return z3.Select(c.t[0], pack(coerce(x, ty.elem))) if self._coercible(x, ty.elem) else z3.BoolVal(False)
         if isinstance(ty, TMap): return z3.Select(c.t[0], pack(coerce(x, ty.k))) if self._coercible(x, ty.k) else z3.BoolVal(False)
+        if isinstance(ty, TOMap): return T.omap_member(c, pack(coerce(x, ty.k))) if self._coercible(x, ty.k) else z3.BoolVal(False)
         if isinstance(ty, TTuple):
             return z3.Or(*[veq(e, x) for e in c.t]) if c.t else z3.BoolVal(False)
         if isinstance(ty, TSeq):
@@ -882,7 +889,7 @@ class Exec:
                     if 'staticmethod' in decos: return fr
                     return BoundMethod(obj, fr, node.value if node is not None else None)
             raise Unsupported('attribute %s on %r' % (attr, ty))
-        if ty is TStr or isinstance(ty, (TSeq, TSet, TMap, TTuple)) or ty is TInt:
+        if ty is TStr or isinstance(ty, (TSeq, TSet, TMap, TTuple, TOMap)) or ty is TInt:
             return BoundBuiltin(obj, attr, node.value if node is not None else None)
         raise Unsupported('attribute %s on %r' % (attr, ty))
 
@@ -911,7 +918,14 @@ class Exec:
 
     def heap_read(self, obj, attr, fty):
         arr = self.heap_field(obj.ty.cls, attr, fty)
-        return unpack(z3.Select(arr, obj.t), fty)
+        v = unpack(z3.Select(arr, obj.t), fty)
+        if not isinstance(fty, (TPrim, TEnum, TAny, TRef)):
+            for fct in T.type_facts(v): self.assume(fct)
+        if isinstance(fty, TRef) and not fty.universal:
+            # objects reachable through the heap are allocated (a freshly constructed object is distinct from all of them)
+            if self.st.alloc is None: self.st.alloc = self.vf.alloc0()
+            self.assume(z3.Select(self.st.alloc, v.t))
+        return v
 
     def heap_write(self, obj, attr, v):
         fields = self.w.classes.get(obj.ty.cls, {})
@@ -956,6 +970,10 @@ class Exec:
             k = pack(self.co(idx, ty.k))
             if not self.spec and self.branch(z3.Not(z3.Select(obj.t[0], k)), exceptional=True): self.raise_exc('KeyError')
             return unpack(z3.Select(obj.t[1], k), ty.v)
+        if isinstance(ty, TOMap):
+            k = pack(self.co(idx, ty.k))
+            if not self.spec and self.branch(z3.Not(T.omap_member(obj, k)), exceptional=True): self.raise_exc('KeyError')
+            return unpack(z3.Select(obj.t[3], k), ty.v)
         if isinstance(ty, TRef) and ty.universal:
             self.vf.note_assumption('an opaque object used as a sequence: its items/length are uninterpreted (TypeError/IndexError not modelled)')
             return V(ty, z3.Function('obj_item', sort_of(ty), z3.IntSort(), sort_of(ty))(obj.t, coerce(idx, TInt).t))
@@ -1043,6 +1061,7 @@ class Exec:
             s = coerce(V(TTuple([e.ty for e in items]), items), TSeq(ety))
             return IterV(s.t[0], lambda i: seq_get(s, i), ety)
         if ty is TStr: return IterV(z3.Length(x.t), lambda i: V(TStr, z3.SubString(x.t, i, 1)), TStr)
+        if isinstance(ty, TOMap): return IterV(x.t[0], lambda i: unpack(z3.Select(x.t[1], i), ty.k), ty.k)
         raise Unsupported('iteration over %r' % ty)
 
     # ---------------- calls
@@ -1118,7 +1137,17 @@ class Exec:
             vals = {}
             for (fname, fty), a in zip(ty.fields, args): vals[fname] = self.co(a, fty)
             for k, a in kwargs.items(): vals[k] = self.co(a, ty.fty(k))
-            if len(vals) != len(ty.fields): raise Unsupported('record constructor with defaults')
+            if len(vals) != len(ty.fields):
+                src = self.w.rec_src.get(ty.name)
+                if src:
+                    node, _ = repo.find_def(*src)
+                    for st in node.body:
+                        if isinstance(st, ast.AnnAssign) and isinstance(st.target, ast.Name) and st.value is not None and st.target.id not in vals:
+                            saved = self.st.env; self.st.env = {}
+                            self.frames.append(dict(rel=src[0], func=None, contract=None))
+                            try: vals[st.target.id] = self.co(self.eval(st.value), ty.fty(st.target.id))
+                            finally: self.frames.pop(); self.st.env = saved
+                if len(vals) != len(ty.fields): raise Unsupported('record constructor: missing fields %s' % [f for f, _ in ty.fields if f not in vals])
             return V(ty, vals)
         raise Unsupported('constructing %r' % ty)
 
@@ -1386,7 +1415,9 @@ class Exec:
                 cls, fld = mname.split('.'); fty = self.w.ty(self.w.classes[cls][fld]); self.heap_field(cls, fld, fty)
                 self.st.heap[mname] = fresh('heap_' + cls + '_' + fld, z3.ArraySort(sort_of(TRef(cls)), sort_of(fty)))
         if k == 0:
-            res = havoc(self.w.ty(c.get('returns', 'none')), 'ret_' + f.key.replace('.', '_'), facts)
+            rty = c.get('returns', 'none')
+            if c.get('returns_seq'): rty = c['returns_seq'][min(ordinal, len(c['returns_seq']) - 1)]
+            res = havoc(self.w.ty(rty), 'ret_' + f.key.replace('.', '_'), facts)
             for fct in facts: self.assume(fct)
             env2 = dict(env); env2['result'] = res
             for e in c.get('ensures', []): self.assume(self.eval_spec(e, env=env2, old=pre))
